@@ -1281,3 +1281,17 @@ RECORD_ISINCONSISTENT = record_contract(
          '(NamedTypes.getNameByPosition, DynamicNames.getNameByPosition) are assumed models with distinct names')
 RECORD_ISINCONSISTENT.empty_dict = empty_dict
 CONTRACTS = CONTRACTS + [RECORD_ISINCONSISTENT]
+
+
+# ---- len() of a record: the number of keys, whatever slots exist yet ------------------------------------------------------------
+RECORD_LEN = record_contract(
+    id='type.univ::SequenceAndSetBase.__len__', qual='SequenceAndSetBase.__len__', properties=['C19', 'C12'],
+    params=dict(componentType=PConst(None), self=PDerived(_record_self)),
+    globals=GR,
+    requires=['N >= 0', 'schema or LLEN0 == 0 or N == 0 or LLEN0 == N'],
+    ensures=[('declared-record-has-one-key-per-component', '(not schema and N > 0) ==> result == N'),
+             ('undeclared-record-counts-its-components', '(not schema and N == 0) ==> result == LLEN0'),
+             ('read-only', 'schema or list_unchanged(self._componentValues)')],
+    raises={'PyAsn1Error': 'schema'},
+    note='len() of the slot list is python\'s; on a schema object the noValue sentinel refuses it')
+CONTRACTS = CONTRACTS + [RECORD_LEN]
